@@ -327,3 +327,45 @@ func (r *Report) Truth(rule string, u *Unit, want string, dir Dir) {
 	}
 	r.Check(rule, construct, u.Pos(u.Body.Pos()), ok, detail)
 }
+
+// InspectAll walks the function's body and the bodies of the helpers read in place of their calls.
+func (u *Unit) InspectAll(f func(ast.Node) bool) {
+	ast.Inspect(u.Body, f)
+	for _, ic := range u.G.Inlined {
+		ast.Inspect(ic.Decl.Body, f)
+	}
+}
+
+// LoopCollections lists the canonical terms of the collections the function loops over, whatever the loop form:
+// `for .. := range X` and `for i := 0; i < len(X); i++`.
+func (u *Unit) LoopCollections() []string {
+	bodies := []ast.Node{u.Body}
+	for _, ic := range u.G.Inlined {
+		bodies = append(bodies, ic.Decl.Body)
+	}
+	seen := map[ast.Node]bool{}
+	var out []string
+	for _, body := range bodies {
+		ast.Inspect(body, func(n ast.Node) bool {
+			switch x := n.(type) {
+			case *ast.FuncLit:
+				return false
+			case *ast.RangeStmt:
+				if !seen[x] {
+					seen[x] = true
+					out = append(out, u.C.Term(x.X))
+				}
+			case *ast.ForStmt:
+				for o, X := range flow.IndexLoops(u.Info(), []ast.Node{x}) {
+					_ = o
+					if !seen[x] {
+						seen[x] = true
+						out = append(out, u.C.Term(X))
+					}
+				}
+			}
+			return true
+		})
+	}
+	return out
+}
